@@ -152,6 +152,21 @@ def propagates_error(body, call_end):
     return False
 
 
+def call_sites_fn(body, name_re):
+    """[(start, end-after-closing-paren)] of calls `name(...)` of a free function whose name matches name_re"""
+    out = []
+    for m in re.finditer(r"\b(?:" + name_re + r")\s*\(", body):
+        depth, j = 1, m.end()
+        while j < len(body) and depth:
+            if body[j] == "(":
+                depth += 1
+            elif body[j] == ")":
+                depth -= 1
+            j += 1
+        out.append((m.start(), j))
+    return out
+
+
 def call_sites(body, method):
     """[(start, end-after-closing-paren)] of `.method(...)` calls (one level of nested parentheses)"""
     out = []
@@ -212,11 +227,48 @@ def gen_repl_shape():
         bool(st["rec_known"]) and max(st["rec_known"]) > exec_at
     if not (st["execute_q"] and min(st["execute_q"]) == exec_at):
         raise ExtractError("run_with_vm_and_opt: the result of execute is not propagated with `?`; Model/Session.v:mstep (failing run) is out of date")
+    # the session's memo of loaded modules is TAKEN out of the VM before loading: it must be put back on the path on which
+    # loading fails too (6a174a4), or a failing `needs` makes the session forget which modules have run
+    memo_kept = True
+    if re.search(r"\.\s*take_repl_session\s*\(", body):
+        memo_kept = False
+        for a0, e0 in call_sites_fn(body, r"load_modules_\w+"):
+            rest = body[e0:]
+            if re.match(r"\s*\?", rest):
+                memo_kept = False
+                break
+            mblk = re.match(r"\s*\{", rest)
+            if mblk:
+                depth, j = 0, e0 + mblk.end() - 1
+                i0 = j
+                while j < len(body):
+                    if body[j] == "{":
+                        depth += 1
+                    elif body[j] == "}":
+                        depth -= 1
+                        if depth == 0:
+                            break
+                    j += 1
+                blk = body[i0:j]
+                em = re.search(r"Err\s*\([^)]*\)\s*=>", blk)
+                if em:
+                    arm = blk[em.end():]
+                    r_at = re.search(r"\breturn\b|\bErr\s*\(", arm)
+                    memo_kept = bool(re.search(r"\.\s*set_repl_session\s*\(", arm[:r_at.start()] if r_at else arm))
+            else:
+                # bound to a name first: the put-back must come before the result is unwrapped
+                lm = re.search(r"\blet\s+(?:mut\s+)?(\w+)\s*(?::[^=;]+)?=\s*[\w:\s]*$", body[:a0])
+                if lm:
+                    var = lm.group(1)
+                    use = re.search(r"\b" + var + r"\s*\?|\bmatch\s+" + var + r"\b", body[e0:])
+                    if use:
+                        memo_kept = bool(re.search(r"\.\s*set_repl_session\s*\(", body[e0:e0 + use.start()]))
     # ------------------------------------------------------------------ a module
     comp = strip_comments(rd("driver/src/modules/loader/compile.rs"))
-    mbody = fn_body(comp, "compile_module")
+    # the function of the loader that runs a module's top level and registers its exports (whatever it is called)
+    mbody = next((bd for _, bd in all_fn_bodies(comp) if re.search(r"\.\s*execute\s*\(", bd) and re.search(r"\.\s*register_exports\s*\(", bd)), None)
     if mbody is None:
-        raise ExtractError("compile_module not found")
+        raise ExtractError("compile.rs: no function that executes a module and registers its exports")
     me = [a for a, e in call_sites(mbody, "execute") if propagates_error(mbody, e)]
     ms = pos(mbody, r"\.\s*sync_globals_to_hashmap\s*\(")
     mr = pos(mbody, r"\.\s*register_exports\s*\(")
@@ -333,6 +385,7 @@ def gen_repl_shape():
            f"Definition REPL_CLEARS_FRAMES_FIRST : bool := {b(clears_first)}.\n",
            f"Definition REPL_RECORDS_IMPORTS_AFTER_COMPILE : bool := {b(imports_after_compile)}.\n",
            f"Definition REPL_SYNCS_AFTER_SUCCESSFUL_RUN : bool := {b(sync_after_run)}.\n",
+           f"Definition REPL_KEEPS_MODULE_MEMO_ON_FAILED_LOAD : bool := {b(memo_kept)}.\n",
            f"Definition MODULE_SYNCS_BEFORE_EXPORTS : bool := {b(module_sync)}.\n",
            f"Definition HOST_CALL_CLEARS_FRAMES : bool := {b(host_clears)}.\n",
            f"Definition HOST_CALL_CHECKS_ARITY_FIRST : bool := {b(arity_first)}.\n",
